@@ -16,6 +16,7 @@ Definition run_case (fields : list str) : str :=
       else if str_eqb cmd (lit "gbase") then run_gbase fields
       else if str_eqb cmd (lit "gip4") then run_gip4 fields
       else if str_eqb cmd (lit "gas") then run_gas fields
+      else if str_eqb cmd (lit "genc") then run_genc fields
       else if mem_str cmd [lit "gjenc"; lit "gjdec"] then run_gjun fields
       else lit "BADCMD"
   | [] => lit "BADCMD"
